@@ -28,4 +28,6 @@ def run(rep, tier, seed):
     run_contracts(rep, "contracts.writers", tier, seed)
     # ... and all four body writers against the strict reference tokenizer on enumerated trees (bounded)
     run_contracts(rep, "contracts.roundtrip_native", tier, seed, accept_props=["C01"])      # incl. whole files: data on the wire holds no raw & or <
+    from props.tables import run_tables
+    run_tables(rep, rep.prop)        # a token written is a token of the table: the tables themselves are well-formed
     replay_known_findings(rep)
